@@ -11,18 +11,18 @@ namespace Xeh.Mach
 /-- limits untouched, heap size unchanged, data stack within `max S (before)` -/
 def Bnd (m m' : Mach) : Prop :=
   m'.stackLimit = m.stackLimit ∧ m'.heapLimit = m.heapLimit ∧ m'.heap.length = m.heap.length ∧
-  ∀ S, m.stackLimit = some S → m'.ds.length ≤ max S m.ds.length
+  (∀ S, m.stackLimit = some S → m'.ds.length ≤ max S m.ds.length) ∧ m'.code.length = m.code.length
 
-theorem Bnd.refl (m : Mach) : Bnd m m := ⟨rfl, rfl, rfl, fun S _ => by omega⟩
+theorem Bnd.refl (m : Mach) : Bnd m m := ⟨rfl, rfl, rfl, fun S _ => by omega, rfl⟩
 theorem Bnd.trans {a b c : Mach} (h1 : Bnd a b) (h2 : Bnd b c) : Bnd a c :=
   ⟨h2.1.trans h1.1, h2.2.1.trans h1.2.1, h2.2.2.1.trans h1.2.2.1, fun S hS => by
-    have x := h1.2.2.2 S hS
-    have y := h2.2.2.2 S (by rw [h1.1]; exact hS)
-    omega⟩
+    have x := h1.2.2.2.1 S hS
+    have y := h2.2.2.2.1 S (by rw [h1.1]; exact hS)
+    omega, h2.2.2.2.2.trans h1.2.2.2.2⟩
 
 /-- close a `Bnd` goal between a machine and an explicit update of it -/
 macro "bnd_auto" : tactic => `(tactic|
-  (refine ⟨rfl, rfl, ?_, fun S hS => ?_⟩ <;> first | rfl | omega | (simp_all [logStep, setIp, nextIp, pushReturn, pushLoop, pushSpecial] <;> omega)))
+  (refine ⟨rfl, rfl, ?_, fun S hS => ?_, ?_⟩ <;> first | rfl | omega | (simp_all [logStep, setIp, nextIp, pushReturn, pushLoop, pushSpecial] <;> omega)))
 
 /-! ### primitives -/
 
